@@ -2739,7 +2739,7 @@ func main() {
 			tr.ptrRecv = "world"
 			params = append(params, "("+v("world")+" : "+recName(structPkg["world"], "world")+")")
 		}
-		if decl.Recv != nil && !memRecv(tr, decl, en, &params) && !acpiRecv(tr, decl, en, &params) && !halRecv(tr, decl, en, &params) { // ext_mem.go / ext_acpi.go: a "world" function with a receiver
+		if decl.Recv != nil && !memRecv(tr, decl, en, &params) && !acpiRecv(tr, decl, en, &params) && !halRecv(tr, decl, en, &params) && !mbRecv(tr, decl, en, &params) { // ext_mb.go / ext_mem.go / ext_acpi.go: a "world" function with a receiver
 			r := decl.Recv.List[0]
 			ti := typeOf(r.Type, spec.Pkg)
 			name := "recv"
@@ -2933,4 +2933,5 @@ func main() {
 	if len(cfg.Probes) > 0 {
 		emitProbes(files, funcs) // ext_ctor.go
 	}
+	emitFragments(funcs) // ext_frag.go (config "fragments"): closure bodies / statement ranges of functions not translated as a whole
 }
